@@ -246,6 +246,47 @@ def run(ctx):
         if any(g != want for g in got):
             ctx.violation('the bytes of a sum of two scripts are not the bytes of the parts', {'op': 'script_add %s + %s' % (_cmds_str(ca), _cmds_str(cb)),
                           'as_bytes': got[0].hex(), 'serialize': got[1].hex(), 'expected': want.hex()})
+    # a script that grows after it was serialised (items appended to .commands), and a script read from a stream that does not start at
+    # the script: serialize() gives the bytes of the items the script has NOW
+    for _ in range(200 if T else 40):
+        ca, cb = gen_cmds(rng, wf=True, maxlen=5), gen_cmds(rng, wf=True, maxlen=4)
+        try:
+            want = Script(list(ca) + list(cb)).serialize()
+            sx = Script(list(ca))
+            first = sx.serialize()
+            if rng.random() < 0.5:
+                sx.as_bytes()
+            sx.commands += list(cb)
+            got = sx.serialize()
+        except Exception as e:
+            ctx.count('script-grow-refused:' + type(e).__name__)
+            continue
+        ctx.evals += 1
+        ctx.count('script-grown-after-serialising')
+        if got != want:
+            ctx.violation('serialize() of a script whose items were extended after a first serialisation is not the bytes of its items',
+                          {'op': 'script_grow %s + %s' % (_cmds_str(ca), _cmds_str(cb)), 'observed': got.hex(), 'expected': want.hex()})
+            break
+    for _ in range(120 if T else 30):
+        cmds = gen_cmds(rng, wf=True, maxlen=6)
+        try:
+            b_ = Script(list(cmds)).serialize()
+            if not b_:
+                continue
+            ref = Script.parse_bytes(b_, strict=False).serialize()
+            pre_ = bytes(rng.randrange(256) for _ in range(rng.choice([1, 1, 9, 36])))
+            st_ = BytesIO(pre_ + b_)
+            st_.read(len(pre_))
+            got = Script.parse_bytesio(st_, data_length=len(b_), strict=False).serialize()
+        except Exception as e:
+            ctx.count('script-stream-refused:' + type(e).__name__)
+            continue
+        ctx.evals += 1
+        ctx.count('script-from-positioned-stream')
+        if got != ref:
+            ctx.violation('a script read from a stream positioned at its first byte serialises to other bytes than the same script read from bytes',
+                          {'op': 'script_stream %s' % _cmds_str(cmds), 'prefix_bytes': len(pre_), 'observed': got.hex(), 'expected': ref.hex()})
+            break
     # the witnesses of the listed findings are always replayed
     for f in ctx.known:
         w = f.get('witness', {}).get('op', '')
